@@ -182,6 +182,11 @@ type Sim struct {
 	// KnownSingleVoter: when set, crash points that would lose entries a single-voter
 	// leader has already published (known finding) are replaced by later ones.
 	Known map[string]bool
+	// SnapCrash, if set, is consulted when a Ready that carries an incoming snapshot is
+	// about to be processed without a crash point: the generator cannot know in advance
+	// which step will meet a snapshot, and the stages around SaveSnap / ApplySnapshot
+	// exist only there.
+	SnapCrash func() CrashPoint
 	// LivenessExcluded: an exclusion interfered with progress (see Deliver); a "stuck"
 	// verdict on this case would be the exclusion's doing.
 	LivenessExcluded bool
